@@ -6,5 +6,5 @@ CONSTANTS
   MaxBig = 3
   MaxGroups = 3
   MaxOps = 5
-INVARIANTS InvRefConforms InvPredicatesBite InvLoopsRefine InvExportedFlag InvExpired InvValid InvMask
+INVARIANTS InvRefConforms InvFlagIgnoresPrior InvPredicatesBite InvLoopsRefine InvExportedFlag InvExpired InvValid InvMask
 CHECK_DEADLOCK FALSE
